@@ -419,13 +419,15 @@ func c06DevName(d zone.Dev) string {
 	case zone.Comment:
 		return fmt.Sprintf("comment%d", d.Arg)
 	case zone.Paren:
-		return "paren-" + [...]string{"indent", "comment", "col0", "each-indent", "each-col0", "close-own-line", "each-comment"}[d.Arg%zone.NParenVariants]
+		return "paren-" + [...]string{"indent", "comment", "col0", "each-indent", "each-col0", "close-own-line", "each-comment", "each-glued-comment"}[d.Arg%zone.NParenVariants]
 	case zone.Blanks:
 		return "blanks"
 	case zone.Unquote:
 		return "unquote"
 	case zone.SwapTTLClass:
 		return "swap-ttl-class"
+	case zone.HeaderParen:
+		return "header-paren-" + [...]string{"one-line", "each-indent", "each-comment", "each-glued-comment"}[d.Arg]
 	}
 	return "?"
 }
